@@ -107,8 +107,13 @@ std::string check_layout(const Layout &l, std::string &key);
 // Native output hash of `spec` compiled and run in a fresh process (exec of
 // ourselves, no history, no faults).  Used to tell a history/fault/schedule
 // effect from a pure-function native-vs-emulation defect (C01's subject).
-bool pristine_native_hash(const std::string &spec, const std::string &target, unsigned long fmask, int n, uint64_t ds,
-                          uint64_t &hash_out);
+// Returns 1 and the hash (native code agrees with emulation in the pristine process), 2 and the hash (it
+// disagrees there too: a pure-function native-vs-emulation defect, whatever the exact bytes - some of those
+// depend on stale register contents and differ from process to process); 0 if the helper answered that it cannot produce native code for this program; -1 if the
+// helper process itself failed three times (g_pristine_diag says how): then nothing can be concluded either way.
+int pristine_native_hash(const std::string &spec, const std::string &target, unsigned long fmask, int n, uint64_t ds,
+                         uint64_t &hash_out);
+extern std::string g_pristine_diag;
 int pristine_main(int argc, char **argv);
 
 // Stack scribbler: fills a few KiB of stack below the caller with seeded bytes.
